@@ -100,4 +100,11 @@ var plans = map[string]*plan{
 		Real:   realB, Stub: []string{"lock API + LFS server: simulated, on loopback"},
 		Assume: []string{"a lock force-released by the other user is legitimately stale in the loser's view until its next verifiable listing", "non-fast-forward pushes are skipped (not this property's business)"},
 	},
+	"C09": {
+		ID: "C09", Engine: "B", Level: "fault_enumeration",
+		Stages: []stage{{"C09", 96, 2500}},
+		Rule:   "per scenario (tape): one of {git add of 1-4 new files via filter-process, git add via the one-shot clean filter, git lfs fetch, git lfs pull, git checkout with smudge downloads, git lfs fsck repair of damaged objects, git lfs prune, git lfs migrate import}, object sizes up to 70 KB (several copy bursts), optional stale .part file. A counting run records every storage-mutating point reached (temp-file creation before/after, each copy burst, every rename, link, fsck move, prune unlink) across all git-lfs processes of the command; then EVERY recorded (point, n) is executed: state restored, process killed with SIGKILL at that instant, storage checked, command re-run (lists over 60 points keep all non-burst points and every third burst). One evaluation = one scenario; crash_points_executed counts kills. Non-trivial: every scenario; distinct = distinct choice trace + outcomes.",
+		Real:   realB, Stub: append([]string{"SIGKILL is delivered by the process to itself at the hook (same effect on files: no user-space buffering on these paths)"}, stubB...),
+		Assume: []string{"crash = SIGKILL (no power-loss semantics: no lost un-synced writes)", "concurrenttransfers=1 so that (point, n) names one instant", "only local storage is compared after the re-run (the statement's wording); working-tree leftovers are not judged"},
+	},
 }
